@@ -293,19 +293,12 @@ func (p *pinner) doPinRecursive(ctx context.Context, c cid.Cid, fetch bool, name
 	p.lock.Lock()
 	defer p.lock.Unlock()
 
-	found, err := p.cidRIndex.HasAny(ctx, cidKey)
+	// Do not return immediately if the CID is already pinned recursively! The
+	// existing recursive pins are removed below, after the graph was fetched,
+	// so that the pin can be re-added with a new name.
+	wasPinned, err := p.cidRIndex.HasAny(ctx, cidKey)
 	if err != nil {
 		return err
-	}
-	// Do not return immediately! Just remove the recursive pins for the current CID.
-	// This allows the process to continue and the pin to be re-added with a new name.
-	//
-	// TODO: remove this to support multiple pins per CID
-	if found {
-		_, err = p.removePinsForCid(ctx, c, ipfspinner.Recursive)
-		if err != nil {
-			return err
-		}
 	}
 
 	dirtyBefore := p.dirty
@@ -332,7 +325,7 @@ func (p *pinner) doPinRecursive(ctx context.Context, c cid.Cid, fetch bool, name
 	}
 
 	// Only look again if something has changed.
-	if p.dirty != dirtyBefore {
+	if !wasPinned && p.dirty != dirtyBefore {
 		found, err := p.cidRIndex.HasAny(ctx, cidKey)
 		if err != nil {
 			return err
@@ -343,7 +336,15 @@ func (p *pinner) doPinRecursive(ctx context.Context, c cid.Cid, fetch bool, name
 	}
 
 	// TODO: remove this to support multiple pins per CID
-	found, err = p.cidDIndex.HasAny(ctx, cidKey)
+	if wasPinned {
+		_, err = p.removePinsForCid(ctx, c, ipfspinner.Recursive)
+		if err != nil {
+			return err
+		}
+	}
+
+	// TODO: remove this to support multiple pins per CID
+	found, err := p.cidDIndex.HasAny(ctx, cidKey)
 	if err != nil {
 		return err
 	}
